@@ -184,6 +184,8 @@ func workerMain(prop string) {
 		// (never inside one unless the plan says so).
 		if executed%8 == 0 || p.ID() == "C11" {
 			runtime.GC()
+		} else {
+			heapHygiene()
 		}
 	}
 }
